@@ -192,6 +192,9 @@ func c04(r *rng, tier string, o *out) {
 			id = (1 << 63) + r.u64n(1<<63)
 		}
 		emit("find "+entsStr(es)+fmt.Sprintf(" %d", id), len(es) > 1, "find", nil)
+		if !(ascendingOK(es) && id < 1<<63 && (len(es) == 0 || es[len(es)-1].ID < 1<<63)) {
+			o.outside(o.n-1, "directory not ascending or an id at or above 2^63: not a well-formed archive")
+		}
 	}
 	// (b) whole archives through the server and the CLI
 	for c := 0; c < narch; c++ {
